@@ -74,6 +74,12 @@ def shapes():
         i = h.Param(dtype=Inner, desc="i", default=Inner())
         p = h.Param(dtype=h.Scalar, desc="p", default=1)
         m = h.Param(dtype=Optional[h.Instantiable], desc="m", default=None)
+    from typing import Union as _U, Any as _Any
+
+    @h.paramclass
+    class Loose:
+        tag = h.Param(dtype=_U[int, str], desc="tag", default=0)
+        w = h.Param(dtype=_Any, desc="w", default=1)
     long_ = "L" * 70
     leafA = h.Module(name="LeafA")
     leafB = h.Module(name="LeafB")
@@ -84,6 +90,8 @@ def shapes():
                dict(a=long_[:61], b=long_[:62])],
         Mixed: [dict(n=1, f=1.0, o=None), dict(n=1, f=1.0, o="None"), dict(n=1, f=1.5, o="s"), dict(n=2, f=1.0, o=None),
                 dict(n=1, f=0.1 + 0.2, o=None), dict(n=1, f=0.3, o=None), dict(n=10, f=1.0, o="a=b c")],
+        Loose: [dict(tag=1, w=1), dict(tag="1", w=1), dict(tag=1, w="1"), dict(tag="a", w=None), dict(tag="a", w="None"),
+                dict(tag=0, w=1.0), dict(tag=0, w=True)],
         Rich: [dict(), dict(c=Color.BLUE), dict(i=Inner(k=2)), dict(i=Inner(t="ss")), dict(p=1000 * h.prefix.m),
                dict(p=1 * h.prefix.UNIT), dict(p="w/5"), dict(p=2), dict(m=leafA), dict(m=leafB), dict(m=h.R(r=1)),
                dict(m=h.R(r=2))],
@@ -186,7 +194,9 @@ def run(ctx):
                     schema_extra=cg.SCHEMA_EXTRA)
     ctx.verify(eng, cg.VERIFY, min_obligations={"hdl21.generator:run": 10})
     obs, info = cn.injectivity_obligations()
-    if len(obs) < 6:
+    for u in info.get("unsupported", []):
+        ctx.unsupported.append(("hdl21.params:_unique_name", u))
+    if len(obs) < 6 and not info.get("unsupported"):
         ctx.checker_errors.append(f"only {len(obs)} injectivity obligations generated")
     ctx.discharge(obs, "hdl21.params:_unique_name", info, replay=replay_injectivity)
     ctx.assumptions += ["hashed branch of _unique_name: md5 is collision free and the JSON encoding is injective on "
